@@ -19,6 +19,7 @@ class SimOS:
         self.protected = []      # bytecode files that stopped being orphans
         self._shuffle = shuffle
         self.unlinked = []
+        self.fault_paths = []    # paths whose unlink was made to fail
         self.unlink_attempts = 0
         self.walks = 0
         self.path = os.path
@@ -50,6 +51,9 @@ class SimOS:
         if self._concurrent.get(self.unlink_attempts):
             self._concurrent_write(path)
         exc = self._faults.get(self.unlink_attempts)
+        if exc in ('FileNotFoundError', 'PermissionError'):
+            self.fault_paths.append(os.path.join(os.path.realpath(os.path.dirname(path)),
+                                                 os.path.basename(path)))
         if exc == 'FileNotFoundError':
             # a concurrent runner removed it first
             os.unlink(path)
